@@ -13,6 +13,9 @@ demos=$(ls $out/*_test.go $out/*.go 2>/dev/null)
 cp $demos $out/demo.md $dst/ 2>/dev/null
 pkgs=$(grep '^+++ b/' $out/patch.diff | sed 's#^+++ b/##' | xargs -n1 dirname | sort -u)
 demopkg=$(echo "$pkgs" | head -1)
+# the demo may live in another package than the patched one: demo.md / meta.json name its path
+hint=$(grep -ho '[A-Za-z0-9_/.-]*/zz_[A-Za-z0-9_]*_test\.go' $out/demo.md $out/meta.json 2>/dev/null | sed 's#^.*/mut/C[0-9]*/##; s#^/*##' | grep -v '^tmp/' | xargs -r -n1 dirname | grep -v '^\.$' | sort | uniq -c | sort -rn | awk '{print $2}' | head -1)
+if [ -n "$hint" ] && [ -d "$wt/$hint" ]; then demopkg=$hint; fi
 for d in $demos; do cp $d $wt/$demopkg/; done
 demorun=$(grep -ho 'func Test[A-Za-z0-9_]*' $demos 2>/dev/null | sed 's/func //' | paste -sd'|')
 res_without=skip; res_with=skip
